@@ -1,0 +1,48 @@
+// SPDX-FileCopyrightText: 2026 The Pion community <https://pion.ly>
+// SPDX-License-Identifier: MIT
+
+//go:build verif
+
+package h264writer
+
+// Spec functions for the contract-based verification in /verif (build tag verif).
+
+// specKeyNalu264: a NAL unit header byte of type SPS (7) or IDR (5) — the
+// property's definition of a keyframe for H.264.
+func specKeyNalu264(hdr byte) bool {
+	return hdr&0x1F == 7 || hdr&0x1F == 5
+}
+
+// specKeyFrame264: the RTP payload (RFC 6184) carries the start of a keyframe:
+// a single NAL unit packet of such a unit, a STAP-A (24) whose first aggregated
+// unit is one, or the first fragment (S bit) of an FU-A (28) of one.
+func specKeyFrame264(d []byte) bool {
+	if len(d) == 0 {
+		return false
+	}
+	switch d[0] & 0x1F {
+	case 24:
+		return len(d) >= 4 && specKeyNalu264(d[3])
+	case 28:
+		return len(d) >= 2 && d[1]&0x80 != 0 && specKeyNalu264(d[1])
+	}
+
+	return specKeyNalu264(d[0])
+}
+
+// specKeyAny264: what may be treated as a keyframe packet — as specKeyFrame264, but any
+// fragment of an FU-A of a keyframe unit qualifies (a stream delivered from its start
+// always presents the first fragment first).
+func specKeyAny264(d []byte) bool {
+	if len(d) == 0 {
+		return false
+	}
+	switch d[0] & 0x1F {
+	case 24:
+		return len(d) >= 4 && specKeyNalu264(d[3])
+	case 28:
+		return len(d) >= 2 && specKeyNalu264(d[1])
+	}
+
+	return specKeyNalu264(d[0])
+}
